@@ -4,6 +4,7 @@ row model (`Model/Plane.lean`): every model step on a row `p` is the translated 
 -/
 import SqModel.Generated.TransPlane
 import SqModel.Proofs.BridgeRat
+import SqModel.Proofs.BridgeCpr
 import SqModel.Model.Plane
 import SqModel.Model.Render
 
@@ -65,7 +66,9 @@ theorem update_from_ext_19_sim (te : TEnv) (p : Plane) (m : Msg) (L : Long m) (s
 
 theorem update_position_sim (te : TEnv) (p : Plane) (mt form : Nat) :
     T.Plane.update_position te (planeToT p) mt form = planeToT (p.updatePosition (envOfT te) mt form) := by
-  unfold T.Plane.update_position Plane.updatePosition Plane.posDecode cprLocationArr numSeconds durationMs
+  unfold T.Plane.update_position Plane.updatePosition Plane.posDecode numSeconds durationMs
+  simp only [cpr_location_eq]
+  unfold cprLocationArr
   have g : ((((Int.tdiv (p.cprTime0 - p.cprTime1) 1000).natAbs : Nat) : Int) < (10 : Int))
       ↔ (Int.tdiv (p.cprTime0 - p.cprTime1) 1000).natAbs < 10 := by omega
   simp only [planeToT, g]
